@@ -14,6 +14,10 @@ UNIT_PROPS = {
     "session": ["C16", "C13"],
     "service_fetch": ["C16", "C13"],
     "service_gossip": ["C10", "C11", "C13"],
+    "cob_op": ["C06", "C04"],
+    "cob_auth": ["C07"],
+    "cob_auth_patch": ["C07"],
+    "cob_identity": ["C04"],
 }
 
 CRYPTO_GROUP = ["signature_roundtrip", "public_key_roundtrip"]
@@ -120,5 +124,26 @@ PROPS = {
         "technique": "Verus panic-freedom on extracted encoding::Cursor and AgentClient::{request_identities,sign,read_signature} for an arbitrary agent reply; Kani full-domain round-trip harnesses for PublicKey/Signature SSH encoding",
         "explanation": "For any reply bytes (ClientStream::request result arbitrary) request_identities, sign and read_signature index and slice within bounds and copy_from_slice only with equal lengths; Cursor::{read_u32,read_string,read_byte,read_mpint} never read out of bounds and advance exactly. Kani: for all 2^256 keys and 2^512 signatures, write then read yields the same value and consumes the whole encoding.",
         "not_decided": "mpint_len/extend_ssh_mpint (local encoding side) not covered; Zeroizing<Vec<u8>> assumed transparent; 64-bit usize assumed.",
+    },
+    "C04": {
+        "vx": ["cob_identity", "identity", "cob_op"],
+        "kx": [],
+        "technique": "Verus contracts on the extracted Identity::action / Revision::accept / lookup::*: delegate gate, signature check against the current document, sink precondition on adopt; Doc::verify_signature, majority arithmetic and the op-level failure frame proved separately",
+        "explanation": "Identity::action (all five arms) is verified: an author who is not a delegate of the current document gets Err; redacting or editing the current revision gets Err; Identity::adopt is only reached for a revision on which a delegate of the current document has recorded an accepting signature that verifies over that revision's blob (Revision::accept verifies with the CURRENT document before recording, duplicate verdicts are errors); the current revision changes only to such a revision. Doc::verify_signature == delegate && ed25519 check; Doc::majority == n/2+1 (strict majority); a failed operation leaves the identity untouched (cob_op).",
+        "not_decided": "The vote COUNT inside Identity::adopt (heads.values().filter(..).count() vs is_majority) and the voiding of other active revisions are iterator/closure code: adopt is a sink with an assumed frame (current stays or becomes id; verdicts/heads untouched). Representation invariant wf() of Identity is assumed, its preservation is not verified. Causal-order evaluation (change graph) is out of reach.",
+    },
+    "C06": {
+        "vx": ["cob_op"],
+        "kx": [],
+        "technique": "Verus failure-frame postcondition on the extracted <Issue|Patch|Identity as store::Cob>::op with op_action/action as arbitrary-effect stand-ins",
+        "explanation": "For Issue, Patch and Identity: if `op` returns Err the object is exactly the value it had before the call, whatever the individual actions did before the failing one (actions are arbitrary-effect stand-ins, so the proof does not depend on which action fails or why).",
+        "not_decided": "That ChangeGraph::evaluate prunes the failed change and its dependents (decision inside a closure passed to Dag::prune_by) and signature checking of entries are not decided; only the per-operation atomicity is.",
+    },
+    "C07": {
+        "vx": ["cob_auth", "cob_auth_patch"],
+        "kx": [],
+        "technique": "Verus postcondition = the statement's rule table on the extracted Issue::authorization / Patch::authorization (+ lookup::review/revision); gate idiom on op_action (sink `action` requires authorization)",
+        "explanation": "Issue::authorization and Patch::authorization return Allow only for delegates of the referenced document or when the rule table written from the statement allows it (assign/label/merge: delegates only, no-op tolerated; edit/lifecycle: object author; comment, review, revision edit/redact: their author). op_action reaches the mutating `action` only on Allow; Deny is an error and Unknown leaves the object unchanged.",
+        "not_decided": "What `action` then does to the object; Issue::author / Thread::comment lookups are assumed accessors; Patch representation invariant reviews_wf assumed.",
     },
 }
